@@ -10,8 +10,9 @@
 (c) hash seeds: accepted designs (pool + upstream reference designs) compiled in fresh interpreters under
     PYTHONHASHSEED 0, 1 and a seed-derived value must give identical bytes (a test, coverage "hashseed_differential").
 
-C11_MODEL=coded|fixed selects the model the tie uses (Hist.compile: the code as written, state leaks where there
-is no try/finally; Hist.compile_fixed: the same stages with the try/finally discipline).
+The tie uses Hist.compile, the model of the CURRENT tree.  For development only, C11_MODEL=coded|fixed ties against
+Hist.compile_coded (the tree before the fix: commits 73c9e08 72ebcaa 215d68c 5bdcba1 36732b7) or Hist.compile_fixed
+(a tree that also restores IrGenerator.returned_blocks / Statement._current_frame on rejection).
 """
 from __future__ import annotations
 import itertools
@@ -22,7 +23,7 @@ import shutil
 
 import common
 
-DEFAULT_MODEL = "coded"   # switch to "fixed" once the fix: commits for C11 are in /repo (the one line to change)
+MODELS = {"current": "compile", "coded": "compile_coded", "fixed": "compile_fixed"}
 
 # ----------------------------------------------------------------------------
 # the pool
@@ -1036,8 +1037,8 @@ def make_histories(ck):
 
 def run(ck: common.Check, replay=None):
     ck.check_props("C11_Properties.v")
-    model = os.environ.get("C11_MODEL", DEFAULT_MODEL)
-    cfun = {"coded": "compile", "fixed": "compile_fixed"}[model]
+    model = os.environ.get("C11_MODEL", "current")
+    cfun = MODELS[model]
     ck.cov["model"] = model
     ck.trusted += [
         "Models/Hist.v as the rendering of the set/restore discipline of the compiler's module and class level state",
@@ -1098,15 +1099,6 @@ def run(ck: common.Check, replay=None):
         ck.hist("pool_classes", label(n))
     ck.cov["pool_size"] = len(ORDER)
     ck.cov["pool_accepted"] = sum(1 for n in ORDER if fresh[n]["ok"])
-    # second fresh run: determinism of a fresh interpreter
-    again = runner.run([[n] for n in ORDER])
-    for n, steps in zip(ORDER, again):
-        same = steps is not None and outcome_of(steps[0]) == outcome_of(fresh[n])
-        ck.obligation(same)
-        if not same:
-            ck.violation({"after": "nothing", "victim": label(n)}, "two fresh interpreters give different outcomes",
-                         {"history": [n], "sources": {n: runner.pool[n]}})
-
     phase("fresh")
     # ---- histories -------------------------------------------------------------------------------------------
     hists = make_histories(ck)
@@ -1132,6 +1124,16 @@ def run(ck: common.Check, replay=None):
     bad = set(common.coq_bad_indices(ck, "hist", pre, "list (design * obs)", terms, "hist_ok %s" % cfun, shard=250))
     bad_h = {tidx[i] for i in bad} | set(untied)
     phase("coq_tie")
+
+    # two fresh interpreter images give the same outcome (the single-design histories are a second fresh run)
+    for h, steps in zip(hists, results):
+        if len(h) == 1 and h[0] in fresh:
+            same = steps is not None and outcome_of(steps[0]) == outcome_of(fresh[h[0]])
+            ck.obligation(same)
+            if not same:
+                ck.violation({"mechanism": "nondeterminism", "after": "nothing", "victim": label(h[0])},
+                             "two fresh interpreters give different outcomes",
+                             {"history": h, "sources": {h[0]: runner.pool[h[0]]}})
 
     # (b) the specification on the real results
     groups = {}      # (victim, kind, err) -> (len, hi, pos)
@@ -1214,7 +1216,7 @@ def run(ck: common.Check, replay=None):
 
     phase("minimise_and_report")
     # model disagreements that are not explained by a specification violation in the same history
-    for hi in sorted(bad_h):
+    for hi in sorted(bad_h, key=lambda i: (len(hists[i]), i))[:6]:      # the shortest ones; all are counted above
         h, steps = hists[hi], results[hi]
         if steps is None:
             continue
@@ -1232,8 +1234,6 @@ def run(ck: common.Check, replay=None):
                          cfun, "" if spec_bad else "; the specification holds on it (model out of date)"),
                      {"history": h, "steps": [{k: s[k] for k in ("name", "ok", "stage", "err", "names", "g")} for s in steps],
                       "outside_model_vocabulary_at": lo}, no_input=True)
-        if len([1 for _ in bad_h]) > 6:
-            break
 
     # ---- mixed histories with upstream reference designs (specification only) ----------------------------------
     ups = upstream_modules()
